@@ -133,9 +133,18 @@ def check_matching(C, p, out, n1, n2, what):
 class P(Prop):
     id = "C18"
     design_ref = "DESIGN.md section 5, C18"
-    theorems = []
+    theorems = [
+        ("TracklibVerif.Props.C18", "TV.C18.table_optimal", "T1: the score _dtw reports (T[-1,-1] of the table the driver runs) is a lower bound of the accumulated cost of every monotone unit-step coupling from the first to the last pair, and some coupling attains it; any accumulation monotone in the accumulated cost"),
+        ("TracklibVerif.Props.C18", "TV.C18.score_symmetric", "T2: swapping the two tracks gives the same score when the point distance is symmetric (the table is transposed)"),
+        ("TracklibVerif.Props.C18", "TV.C18.path_valid", "T3: the list S of the backward walk through M is a monotone unit-step coupling from the last pair to (0,0); nb_links is its length; the 'pair' feature lists exactly its pairs; every observation of both tracks is linked"),
+        ("TracklibVerif.Props.C18", "TV.C18.path_realises", "T4: the accumulated cost of the returned coupling equals the reported score (each back-pointer designates a minimal predecessor)"),
+        ("TracklibVerif.Props.C18", "TV.C18.weight_mono", "_p2weight(p) is monotone in the accumulated cost for p = 1, 2, inf over an ordered field"),
+        ("TracklibVerif.Props.C18", "TV.C18.distance_symm", "_distance (dim 1, 2, 3) is symmetric over an ordered field, for any sqrt"),
+        ("TracklibVerif.Props.C18", "TV.C18.match_correct", "match(track1, track2, DTW | FRECHET, p, dim) on non-empty tracks over an ordered field: succeeds, score = optimum over couplings, S is a coupling whose cost is the score, pair/nb_links describe S, nobody left out, swapped call reports the same score"),
+    ]
     partial = []
-    open_statements = []
+    open_statements = ["T5 fdtw_equal (the best-first variant _fdtw reports the same score): not proved; covered by the correspondence (model of _fdtw with the heap contract) and by the oracle on every case",
+                       "IEEE rounding: the theorems are over a linear order / ordered field; on the float runs the oracle compares with relative tolerance 1e-9"]
     modelled = ("algo/comparison.py: match and compare (modes DTW, FDTW, FRECHET), _distance (dim 1/2/3), _p2weight (p = 1, 2, inf), "
                 "_dtw (distance matrix, first row/column, forward step, predecessor encoding, backward walk), _fdtw + _update_node "
                 "(priority_dict.pop_smallest as 'least (priority, key)'), _fillAF_dtw (pair, diff, ex, ey, nb_links, score), "
